@@ -23,6 +23,10 @@ def main():
     def one(sid):
         d = os.path.join(HERE, 'seeded', sid)
         meta = json.load(open(os.path.join(d, 'meta.json')))
+        if meta.get('obsolete'):
+            # a later fix: commit of /repo took away the behaviour this change broke: it no longer violates the property (kept as a record)
+            summary.append((sid, 'OBSOLETE', meta['obsolete'][:120]))
+            return
         props = meta.get('checks') or [meta['property']]
         wt = tempfile.mkdtemp(prefix='seedrun_')
         shutil.rmtree(wt)
